@@ -508,6 +508,8 @@ def cases(tier, seed):
                 variants = [{}, {"split_out": 2, "shuffle_method": "tasks"}]
                 if op.get("fn") == "median" or (op["kind"] == "agg" and "median" in _agg_funcs(op)):
                     variants.append({"split_every": 8})
+                elif g0.get("dropna") is False or g0.get("observed") is False:
+                    variants.append({"split_every": 2})      # tree reduction with a combine step (6 partitions)
                 for akw in variants:
                     akw = {k: v for k, v in akw.items() if k in allow}
                     yield {"space": "exhaustive", "fseed": 3838, "nrows": nrows, "index": "dups" if "@index" in by else "sorted",
